@@ -569,6 +569,7 @@ size_t ZSTD_seekable_decompress(ZSTD_seekable* zs, void* dst, size_t len, unsign
                 if (zs->seekTable.checksumFlag &&
                     (XXH64_digest(&zs->xxhState) & 0xFFFFFFFFU) !=
                             zs->seekTable.entries[targetFrame].checksum) {
+                    zs->curFrame = (U32) -1;   /* the frame is not what the table says : the next call starts over */
                     return ERROR(corruption_detected);
                 }
 
@@ -577,7 +578,10 @@ size_t ZSTD_seekable_decompress(ZSTD_seekable* zs, void* dst, size_t len, unsign
                     targetFrame = ZSTD_seekable_offsetToFrameIndex(zs, zs->decompressedOffset);
                     /* the frame ended before the end position the seek table gives for it :
                      * table and frame disagree, restarting the same frame would loop forever */
-                    if (targetFrame == zs->curFrame) return ERROR(corruption_detected);
+                    if (targetFrame == zs->curFrame) {
+                        zs->curFrame = (U32) -1;   /* same : the decoder now sits at the start of the next zstd frame */
+                        return ERROR(corruption_detected);
+                    }
                     /* in this case it will fail later with corruption_detected, since last block does not have checksum */
                     assert(targetFrame != zs->seekTable.tableLen);
                     frameDone = 0;
